@@ -22,12 +22,30 @@ class Scratch:
     """unique per run; removed on close.  Nothing here lives under /tmp."""
 
     def __init__(self, prop):
+        import signal
+        import threading
+        if threading.current_thread() is threading.main_thread():
+            # a terminated check still removes its scratch directories (finally blocks run)
+            signal.signal(signal.SIGTERM, lambda *a: sys.exit(143))
+        self.sweep()
         tag = f"{prop}-{os.getpid()}-{time.time_ns()}"
         self.base = C.BUILD / "scratch" / tag
         self.xbase = Path("/dev/shm") / f"skv-{tag}"
         self.base.mkdir(parents=True)
         self.xbase.mkdir(parents=True)
         self.n = 0
+
+    @staticmethod
+    def sweep():
+        """remove scratch roots left behind by a killed run (their pid is gone)"""
+        import re
+        for base, pat in ((C.BUILD / "scratch", r"^C\d\d-(\d+)-\d+$"), (Path("/dev/shm"), r"^skv-C\d\d-(\d+)-\d+$")):
+            if not base.is_dir():
+                continue
+            for d in base.iterdir():
+                m = re.match(pat, d.name)
+                if m and not Path(f"/proc/{m.group(1)}").exists():
+                    shutil.rmtree(d, ignore_errors=True)
 
     def case_dirs(self):
         self.n += 1
